@@ -101,10 +101,31 @@ pub struct ProcResult {
 
 impl ProcResult {
     /// the run (re)wrote at least one .ts file
+    /// the run (re)wrote at least one .ts file - directly, or by renaming a
+    /// temporary file into place
     pub fn regenerated(&self) -> bool {
-        self.trace
-            .iter()
-            .any(|e| e.op == interpose::Op::OpenW && e.path.ends_with(".ts") && !e.frozen)
+        self.trace.iter().any(|e| {
+            !e.frozen
+                && e.ret >= 0
+                && ((e.op == interpose::Op::OpenW && e.path.ends_with(".ts"))
+                    || (matches!(e.op, interpose::Op::Rename | interpose::Op::Link) && (e.path2.ends_with(".ts") || e.path.ends_with(".ts"))))
+        })
+    }
+    /// base names of the files this run wrote (open for writing, or renamed/linked into place)
+    pub fn written_names(&self) -> Vec<String> {
+        let mut v = vec![];
+        for e in &self.trace {
+            if e.frozen || e.ret < 0 {
+                continue;
+            }
+            let p = match e.op {
+                interpose::Op::OpenW | interpose::Op::Link => &e.path,
+                interpose::Op::Rename => &e.path2,
+                _ => continue,
+            };
+            v.push(p.rsplit('/').next().unwrap_or("").to_string());
+        }
+        v
     }
     pub fn said_up_to_date(&self) -> bool {
         self.stdout.contains("bindings are up to date")
